@@ -166,7 +166,7 @@ class Hexital:
 
     def has_reading(self, name: str) -> bool:
         """Checks if the given Indicator has a valid reading in latest Candle"""
-        return bool(self.reading(name))
+        return self.reading(name) is not None
 
     def reading(self, name: str, index: int = -1) -> float | dict | None:
         """Attempts to retrieve a reading with a given Indicator name.
